@@ -1,5 +1,5 @@
 //@PROBE file=src/trackers/sort/simple_api.rs test=verif_probe_tracker_lifecycle_c03 clauses=tracker_lifecycle
-//@BOUND SORT simple tracker, shards 1..2, IoU(0.3) and Mahalanobis, max_idle 2; a 14-step two-scene script (objects disappearing for 1, 3 and 6 steps; wasted(), idle_tracks and both shard statistics queried after every predict, or not at all so that expired tracks stay physically in the live store; one skip_epochs) replayed under auto-waste periodicities {default 100, 0, 1, 2, 3, 5}; expectations from the scenario's ground truth, traces compared across periodicities
+//@BOUND the simple trackers Sort and VisualSort (detections without features), shards 1..2, IoU(0.3) and Mahalanobis, max_idle 2; a 14-step two-scene script (objects disappearing for 1, 2 - a gap of exactly max_idle + 1 epochs -, 5 and 6 steps, frames without any detection; wasted(), idle_tracks and both shard statistics queried after every predict, or not at all so that expired tracks stay physically in the live store; one skip_epochs) replayed under auto-waste periodicities {default 100, 0, 1, 2, 3, 5}; expectations from the scenario's ground truth, traces compared across periodicities
 #[cfg(test)]
 mod verif_probe_tracker_lifecycle_c03 {
     // Bounded stand-in for the history-level clauses of C03 (conservation, exact expiry, wasted once, idle listing,
@@ -9,6 +9,9 @@ mod verif_probe_tracker_lifecycle_c03 {
     use crate::trackers::sort::PositionalMetricType::{IoU, Mahalanobis};
     use crate::trackers::tracker_api::TrackerAPI;
     use crate::utils::bbox::BoundingBox;
+    use crate::trackers::visual_sort::simple_api::VisualSort;
+    use crate::trackers::visual_sort::options::VisualSortOptions;
+    use crate::trackers::visual_sort::VisualSortObservation;
     use std::collections::HashMap;
 
     const MAX_IDLE: usize = 2;
@@ -17,19 +20,42 @@ mod verif_probe_tracker_lifecycle_c03 {
         match (scene, obj) {
             (1, 0) => [0, 1, 7, 8, 9].contains(&step),          // gone for 6 steps: expires, later a new track
             (1, 1) => step != 3 && step < 11,                    // one missing step: continues; gone at the end
-            (1, 2) => [0, 1, 2, 6, 12, 13].contains(&step),      // 3 missing steps (expires), then 5 more
+            (1, 2) => [0, 1, 2, 5, 11, 12, 13].contains(&step),  // 2 missing steps: a gap of exactly MAX_IDLE + 1 epochs (expired, never continued), then 5 more
             (2, 0) => step % 2 == 0,                             // other scene, same image region as (1, 0)
             _ => false,
         }
     }
     fn bbox(obj: usize, step: usize) -> Universal2DBox { BoundingBox::new(300.0 * obj as f32 + step as f32, 40.0, 12.0, 24.0).into() }
 
+
+    /// the two simple trackers behind one face (both implement TrackerAPI)
+    enum Tk { S(Sort), V(VisualSort) }
+    macro_rules! both { ($self:expr, $t:ident => $e:expr) => { match $self { Tk::S($t) => $e, Tk::V($t) => $e } } }
+    impl Tk {
+        fn new(visual: bool, shards: usize, method: PositionalMetricType) -> Tk {
+            if visual { Tk::V(VisualSort::new(shards, &VisualSortOptions::default().max_idle_epochs(MAX_IDLE).kept_history_length(3).positional_metric(method))) }
+            else { Tk::S(Sort::new(shards, 3, MAX_IDLE, method, 0.05, None, 1.0 / 20.0, 1.0 / 160.0)) }
+        }
+        fn predict(&mut self, scene: u64, dets: &[(Universal2DBox, Option<i64>)]) -> Vec<SortTrack> {
+            match self {
+                Tk::S(t) => t.predict_with_scene(scene, dets),
+                Tk::V(t) => t.predict_with_scene(scene, &dets.iter().map(|(b, c)| VisualSortObservation::new(None, None, b.clone(), *c)).collect::<Vec<_>>()),
+            }
+        }
+        fn set_auto_waste(&mut self, p: usize) { both!(self, t => t.set_auto_waste(p)) }
+        fn skip(&mut self, s: u64, n: usize) { both!(self, t => t.skip_epochs_for_scene(s, n)) }
+        fn epoch(&self, s: u64) -> usize { both!(self, t => t.current_epoch_with_scene(s)) }
+        fn idle(&mut self, s: u64) -> Vec<u64> { both!(self, t => t.idle_tracks_with_scene(s).iter().map(|r| r.id).collect()) }
+        fn wasted_ids(&mut self) -> Vec<u64> { both!(self, t => t.wasted().iter().map(|x| x.get_track_id()).collect()) }
+        fn stored(&self) -> usize { both!(self, t => t.active_shard_stats().iter().sum::<usize>() + t.wasted_shard_stats().iter().sum::<usize>()) }
+    }
+
     #[derive(Debug, Clone, PartialEq)]
     struct Obs { step: usize, scene: u64, records: Vec<(usize, usize, usize)>, wasted: Vec<usize>, idle: Vec<usize>, stored: usize }
 
-    fn run(shards: usize, method: PositionalMetricType, periodicity: Option<usize>, query: bool, failures: &mut Vec<String>) -> Vec<Obs> {
-        let ctx = format!("PROBE input: tracker_lifecycle shards={} method={:?} auto_waste_periodicity={:?} wasted/idle/statistics queried after every predict={}", shards, method, periodicity, query);
-        let mut t = Sort::new(shards, 3, MAX_IDLE, method, 0.05, None, 1.0 / 20.0, 1.0 / 160.0);
+    fn run(visual: bool, shards: usize, method: PositionalMetricType, periodicity: Option<usize>, query: bool, failures: &mut Vec<String>) -> Vec<Obs> {
+        let ctx = format!("PROBE input: tracker_lifecycle tracker={} shards={} method={:?} auto_waste_periodicity={:?} wasted/idle/statistics queried after every predict={}", if visual { "VisualSort" } else { "Sort" }, shards, method, periodicity, query);
+        let mut t = Tk::new(visual, shards, method);
         if let Some(p) = periodicity { t.set_auto_waste(p); }
         let mut rename: HashMap<u64, usize> = HashMap::new();
         // ground truth: (scene, obj) -> (track name, length, last epoch)
@@ -39,12 +65,12 @@ mod verif_probe_tracker_lifecycle_c03 {
         let mut trace = vec![];
         for step in 0..14usize {
             for scene in [1u64, 2] {
-                if step == 5 && scene == 2 { t.skip_epochs_for_scene(2, 2); *epoch.entry(2).or_insert(0) += 2; }
+                if step == 5 && scene == 2 { t.skip(2, 2); *epoch.entry(2).or_insert(0) += 2; }
                 let objs: Vec<usize> = (0..3).filter(|o| present(scene, *o, step)).collect();
                 let dets: Vec<(Universal2DBox, Option<i64>)> = objs.iter().map(|o| (bbox(*o, step), None)).collect();
-                let res = t.predict_with_scene(scene, &dets);
+                let res = t.predict(scene, &dets);
                 let e = { let x = epoch.entry(scene).or_insert(0); *x += 1; *x };
-                if t.current_epoch_with_scene(scene) != e { failures.push(format!("{} step={} scene={}: epoch {} expected {}", ctx, step, scene, t.current_epoch_with_scene(scene), e)); }
+                if t.epoch(scene) != e { failures.push(format!("{} step={} scene={}: tracker_lifecycle.epoch_advances_by_one_per_predict_call_empty_or_not: the scene epoch is {} after this call, expected {}", ctx, step, scene, t.epoch(scene), e)); }
                 let mut records = vec![];
                 for (k, o) in objs.iter().enumerate() {
                     let n = rename.len();
@@ -60,15 +86,15 @@ mod verif_probe_tracker_lifecycle_c03 {
                 }
                 if !query { trace.push(Obs { step, scene, records, wasted: vec![], idle: vec![], stored: 0 }); continue; }
                 // idle listing: unexpired tracks of the scene not updated in the current epoch
-                let mut idle: Vec<usize> = t.idle_tracks_with_scene(scene).iter().map(|r| *rename.get(&r.id).unwrap_or(&999)).collect(); idle.sort();
+                let mut idle: Vec<usize> = t.idle(scene).iter().map(|r| *rename.get(r).unwrap_or(&999)).collect(); idle.sort();
                 let mut want_idle: Vec<usize> = alive.iter().filter(|(_, (s, last))| *s == scene && *last != e && last + MAX_IDLE >= e).map(|(n, _)| *n).collect(); want_idle.sort();
                 if idle != want_idle { failures.push(format!("{} step={} scene={}: tracker_lifecycle.idle_lists_exactly_the_unexpired_tracks_not_updated_now: idle {:?} expected {:?}", ctx, step, scene, idle, want_idle)); }
                 // wasted(): exactly the expired tracks (of every scene) not handed out before
-                let mut wasted: Vec<usize> = t.wasted().iter().map(|x| *rename.get(&x.get_track_id()).unwrap_or(&999)).collect(); wasted.sort();
+                let mut wasted: Vec<usize> = t.wasted_ids().iter().map(|x| *rename.get(x).unwrap_or(&999)).collect(); wasted.sort();
                 let mut want_w: Vec<usize> = alive.iter().filter(|(_, (s, last))| last + MAX_IDLE < epoch[s]).map(|(n, _)| *n).collect(); want_w.sort();
                 if wasted != want_w { failures.push(format!("{} step={} scene={}: tracker_lifecycle.wasted_hands_out_exactly_the_expired_tracks_once: wasted() returned {:?} expected {:?}", ctx, step, scene, wasted, want_w)); }
                 for n in &wasted { alive.remove(n); }
-                let stored: usize = t.active_shard_stats().iter().sum::<usize>() + t.wasted_shard_stats().iter().sum::<usize>();
+                let stored: usize = t.stored();
                 if stored != alive.len() { failures.push(format!("{} step={} scene={}: tracker_lifecycle.statistics_account_for_every_track_not_handed_out: live+wasted statistics {} but {} tracks are outstanding", ctx, step, scene, stored, alive.len())); }
                 trace.push(Obs { step, scene, records, wasted, idle, stored });
             }
@@ -80,20 +106,20 @@ mod verif_probe_tracker_lifecycle_c03 {
     fn verif_probe_tracker_lifecycle_c03() {
         let mut failures: Vec<String> = vec![];
         let mut cases = 0u64;
-        for shards in 1usize..=2 {
+        for visual in [false, true] { for shards in 1usize..=2 {
             for method in [IoU(0.3), Mahalanobis] {
               for query in [true, false] {
-                let base = run(shards, method, None, query, &mut failures);
+                let base = run(visual, shards, method, None, query, &mut failures);
                 for p in [0usize, 1, 2, 3, 5] {
                     cases += 1;
-                    let tr = run(shards, method, Some(p), query, &mut failures);
+                    let tr = run(visual, shards, method, Some(p), query, &mut failures);
                     if let Some(k) = (0..base.len()).find(|k| base[*k] != tr[*k]) {
-                        failures.push(format!("PROBE input: tracker_lifecycle shards={} method={:?} queried={}: tracker_lifecycle.collection_timing_is_unobservable: with auto-waste periodicity {} the observable trace differs from the default at {:?} vs {:?}", shards, method, query, p, tr[k], base[k]));
+                        failures.push(format!("PROBE input: tracker_lifecycle tracker={} shards={} method={:?} queried={}: tracker_lifecycle.collection_timing_is_unobservable: with auto-waste periodicity {} the observable trace differs from the default at {:?} vs {:?}", if visual { "VisualSort" } else { "Sort" }, shards, method, query, p, tr[k], base[k]));
                     }
                 }
               }
             }
-        }
+        } }
         eprintln!("PROBE cases={} nontrivial={}", cases * 28, cases * 28);
         for f in failures.iter().take(12) { eprintln!("{}", f); }
         assert!(failures.is_empty(), "PROBE found {} failing inputs; first: {}", failures.len(), failures[0]);
